@@ -226,6 +226,30 @@ func c16FlowRun(c c16FlowCase, grace time.Duration) (key, msg string, classes ma
 				case <-time.After(grace):
 				}
 			}
+		case "h":
+			// the network makes no progress for N ms: whatever the elapsed time, a held-back Write must
+			// stay held back (a Write that gets through is a violation whenever it is seen; no clock in
+			// the verdict)
+			t0 := time.Now()
+			end := t0.Add(time.Duration(op.N) * time.Millisecond)
+			for time.Now().Before(end) {
+				if pend == nil {
+					time.Sleep(time.Until(end))
+					break
+				}
+				tick := 50 * time.Millisecond
+				if r := time.Until(end); r < tick {
+					tick = r
+				}
+				select {
+				case r := <-pend:
+					return "flow:not-held-back", fmt.Sprintf("step %d: the held-back Write(%d) returned (%d, %v) after %v of a stalled network although %d bytes were buffered (limit %d) and nothing had been drained", step, pendSize, r.n, r.err, time.Since(t0).Round(100*time.Millisecond), buffered(), limit), classes
+				case <-time.After(tick):
+				}
+			}
+			if pend != nil {
+				classes[fmt.Sprintf("held-through-stall-%ds+", op.N/5000*5)] = true
+			}
 		case "c":
 			sc.Close()
 			closed = true
@@ -331,7 +355,7 @@ func c16FlowGen(rt *rapid.T) c16FlowCase {
 	for i := 0; i < n; i++ {
 		var kinds []string
 		if blocked {
-			kinds = []string{"d", "d", "d", "d", "d", "w", "c"}
+			kinds = []string{"d", "d", "d", "d", "d", "w", "c", "h"}
 		} else {
 			kinds = []string{"w", "w", "w", "w", "w", "d", "d", "c"}
 		}
@@ -396,6 +420,8 @@ func c16FlowGen(rt *rapid.T) c16FlowCase {
 				}
 			}
 			b = nb
+		case "h":
+			op.N = rapid.IntRange(1, 15).Draw(rt, "hold-ms")
 		case "c":
 			ops = append(ops, op)
 			return c16FlowCase{Ops: ops}
@@ -403,6 +429,78 @@ func c16FlowGen(rt *rapid.T) c16FlowCase {
 		ops = append(ops, op)
 	}
 	return c16FlowCase{Ops: ops}
+}
+
+// TestVerif_C16_stall: the same flow-control oracle against a network that makes no progress for longer
+// than any plausible internal timer. A handful of scripts run side by side in real time (one stall);
+// the test is t.Parallel so that it overlaps the stream sub-check of the same unit.
+func TestVerif_C16_stall(t *testing.T) {
+	t.Parallel()
+	stallMs := vh.Pick(11000, 15000)
+	rec := vh.NewRec("C16", "stall", fmt.Sprintf("fixed flow-control scripts on SCTPConn over a drain-model stream whose network is stalled for %d ms in real time while a Write is held back (buffer exactly at / just below the limit, small and large blocked write, after a stale wake-up, with drains that stay above the low threshold), then drained (the Write must be released) and refilled (released by Close); same token-model oracle as the flow sub-check: a held-back Write must not reach the stream however long the stall lasts; non-trivial = a Write was held back through the whole stall; distinct by script; runs on shard 0 only", stallMs))
+	defer rec.Flush()
+	const limit = int(writeMaxBufferedAmount)
+	const half = limit / 2
+	if p := vh.ReplayFile(); p != "" {
+		var c c16FlowCase
+		if _, _, err := vh.LoadReplay(p, &c); err != nil {
+			t.Fatal(err)
+		}
+		c16FlowCheck(t, rec, c)
+		return
+	}
+	if !vh.Mine(0) {
+		return
+	}
+	rec.Require("held-back", "released-by-drain", "released-by-close", fmt.Sprintf("held-through-stall-%ds+", stallMs/5000*5))
+	tail := []c16FlowOp{{K: "d", N: limit * 2}, {K: "w", N: half}, {K: "w", N: half}, {K: "w", N: 7}, {K: "h", N: 300}, {K: "c"}}
+	scripts := [][]c16FlowOp{
+		// buffer exactly at the limit, one more byte is held back
+		{{K: "w", N: half}, {K: "w", N: half}, {K: "w", N: 1}, {K: "h", N: stallMs}},
+		// 32 KiB chunks (the writer of a relay)
+		{{K: "w", N: 32768}, {K: "w", N: 32768}, {K: "w", N: 32768}, {K: "w", N: 32768}, {K: "w", N: 32768}, {K: "w", N: 32768}, {K: "w", N: 32768}, {K: "w", N: 32768}, {K: "w", N: 32768}, {K: "h", N: stallMs}},
+		// a stale wake-up is consumed first (buffer up to 1.5 x limit), the next Write is held back
+		{{K: "w", N: half}, {K: "w", N: half}, {K: "d", N: limit}, {K: "w", N: half}, {K: "w", N: half}, {K: "w", N: half}, {K: "w", N: half}, {K: "h", N: stallMs}},
+		// the network trickles but never reaches the low threshold
+		{{K: "w", N: half}, {K: "w", N: half}, {K: "w", N: 65536}, {K: "h", N: stallMs / 4}, {K: "d", N: 1000}, {K: "h", N: stallMs / 4}, {K: "d", N: 60000}, {K: "h", N: stallMs / 4}, {K: "d", N: 5000}, {K: "h", N: stallMs / 4}},
+	}
+	type res struct {
+		c        c16FlowCase
+		key, msg string
+		cl       map[string]bool
+	}
+	out := make(chan res, len(scripts))
+	for _, ops := range scripts {
+		c := c16FlowCase{Ops: append(append([]c16FlowOp{}, ops...), tail...)}
+		go func() {
+			k, m, cl := c16Timed(500*time.Millisecond, func() (string, string, map[string]bool) { return c16FlowRun(c, 3*time.Millisecond) })
+			out <- res{c, k, m, cl}
+		}()
+	}
+	var bad []res
+	for range scripts {
+		r := <-out
+		var classes []string
+		for k := range r.cl {
+			classes = append(classes, k)
+		}
+		held := false
+		for k := range r.cl {
+			if strings.HasPrefix(k, "held-through-stall-") && k != "held-through-stall-0s+" {
+				held = true
+			}
+		}
+		rec.Case(held, vh.Digest(r.c), r.c, classes...)
+		if r.key != "" {
+			bad = append(bad, r)
+		}
+	}
+	for _, r := range bad {
+		if r.key == "harness" {
+			t.Fatalf("harness problem: %s", r.msg)
+		}
+		rec.Violation(t, r.key, r.c, "%s; ops=%v", r.msg, r.c.Ops)
+	}
 }
 
 func TestVerif_C16_flow(t *testing.T) {
